@@ -138,6 +138,11 @@ func (h *handler) Handle(ctx context.Context, header *protocol.RequestHeader, re
 				if strings.TrimSpace(name) == "" {
 					continue
 				}
+				// Looking a topic up must not create it for a principal that could
+				// neither produce to it nor administer the cluster.
+				if !h.allowTopic(principal, name, acl.ActionProduce) && !h.allowAdmin(principal) {
+					continue
+				}
 				if err := h.ensureTopic(ctx, name, 0); err != nil {
 					return nil, fmt.Errorf("auto-create topic %s: %w", name, err)
 				}
